@@ -23,7 +23,8 @@ the action is not enabled (e.g. a write that would have to block has no immediat
 
 Ghost state (not in the C code): a logical clock, the completed posts with the times they began and
 performed their write, the times the handler was entered, and two counters for the accounting
-invariant.  Register failure for lack of descriptors (EMFILE) is not modelled.
+invariant.  A registration that fails for lack of descriptors (EMFILE) is no action of the model: it changes
+neither the object nor the shared latch (the `regfail` scenario family checks exactly that on the code).
 -/
 namespace Ivy.Raw
 
